@@ -1,9 +1,9 @@
 #!/bin/sh
 # trymut_alt.sh <patch.diff> <Cxx> [Cyy ...] : try a seeded change WITHOUT touching /repo: a scratch worktree of /repo's HEAD gets the
-# patch, the harness is built against it (VERIF_ALT_REPO), the checks run with their scratch output kept apart. Development aid only.
+# patch (BASE=<commit> to start from another commit than HEAD), the harness is built against it (VERIF_ALT_REPO), the checks run with their scratch output kept apart. Development aid only.
 P="$1"; shift
 W=/tmp/alt-repo-$$-$(date +%N)
-git -C /repo worktree add --detach -q "$W" HEAD || exit 2
+git -C /repo worktree add --detach -q "$W" "${BASE:-HEAD}" || exit 2
 H=$(python3 -c "import hashlib,sys;print(hashlib.sha256(sys.argv[1].encode()).hexdigest()[:8])" "$W")
 trap 'git -C /repo worktree remove --force "$W"; git -C /repo worktree prune; rm -rf "/verif/work/alt-$H"' EXIT
 ( cd "$W" && git apply "$P" ) || { echo "patch does not apply"; exit 2; }
